@@ -18,7 +18,10 @@ from ..common import Check, Outcome, Snap, subscribe, subscribe2, bootstrap
 rs = bootstrap()
 import zstandard                                            # noqa: E402
 
-TARGETS = [131075, 131591, 131072, 65536, 32768, 16384, 8192, 4096, 262144]       # zstandard's recommended input/output sizes, powers of two
+# compressed sizes a streaming wrapper may re-block on: zstandard's recommended input / output sizes and their doubles, powers of two
+# (taken in turn, so that every quick run has them all)
+TARGETS = {'zstd': [131075, 131591, 2 * 131075, 131072, 65536, 2 * 131591, 32768, 262144],
+           'gzip': [65536, 32768, 131072, 16384, 8192, 262144, 4096, 2 * 65536 + 65536]}
 
 CODECS = {
     'gzip': (rs.compression.z.compress, rs.compression.z.decompress),
@@ -112,8 +115,9 @@ class C16(Check):
                 # the COMPRESSED stream is exactly T bytes long, T a buffer size a streaming wrapper may re-block on
                 # (zstd's recommended input / output sizes, powers of two) or a multiple: the last byte of the frame is
                 # then the last byte of a block
-                T = rng.choice(TARGETS) * rng.choice([1, 1, 2])
                 codec = ('gzip', 'zstd')[(k // 20) % 2]
+                tl = TARGETS[codec]
+                T = tl[(k // 40) % len(tl)]
                 dseed = rng.randrange(1 << 30)
                 n = self._payload_for_compressed_size(codec, T, dseed)
                 if n is not None:
